@@ -309,3 +309,27 @@ def _(kdk: AesKey, block_number: Range(0, (1 << 96) - 1), key_length: OneOf(128,
     returns(_derive_key(kdk, block_number, kdk_access_rights, KeyDerivationMode.BLK, key_length))
     ensures(len(result) == key_length // 8, label="length")
     pure()
+
+
+# ---- Hash class: an integer is hashed as its minimal big-endian encoding (reference: hashlib over the same bytes) -----------------------
+from spsdk.crypto.hash import Hash  # noqa: E402
+
+inline("spsdk.crypto.hash:Hash.__init__", "spsdk.crypto.hash:Hash.update", "spsdk.crypto.hash:Hash.update_int", "spsdk.crypto.hash:Hash.finalize")
+
+
+@lemma("hash-update-int-hashes-the-minimal-big-endian-encoding")
+def _(alg: OneOf(EnumHashAlgorithm.SHA1, EnumHashAlgorithm.SHA256, EnumHashAlgorithm.SHA384, EnumHashAlgorithm.SHA512),
+      b: OneOf(1, 7, 8, 9, 15, 16, 17, 24, 31, 32, 33, 56, 63, 64, 65, 2048), v: Nat, negative: bool):
+    # every bit length around the byte boundaries (the value itself is arbitrary within its bit length); the sign is dropped
+    requires(v >= 2 ** (b - 1) and v < 2 ** b)
+    let(h=Hash(alg))
+    let(u=h.update_int(-v if negative else v))
+    let(d=h.finalize())
+    ensures(d == HASH(alg.label, v.to_bytes((b + 7) // 8, "big")), label="digest-of-the-minimal-encoding")
+
+
+@lemma("hash-update-int-of-zero-hashes-nothing")
+def _(alg: OneOf(EnumHashAlgorithm.SHA1, EnumHashAlgorithm.SHA256)):
+    let(h=Hash(alg))
+    let(u=h.update_int(0))
+    ensures(h.finalize() == HASH(alg.label, b""), label="empty-encoding")
